@@ -221,6 +221,53 @@ func Mutations(s *Schema) []Mutant {
 				})
 			}
 		}
+		if d.Kind == "union" && len(d.Branches) >= 1 {
+			minIdx := d.Branches[0].Index
+			for _, b := range d.Branches {
+				if b.Index < minIdx {
+					minIdx = b.Index
+				}
+			}
+			if minIdx >= 1 {
+				// the same injections located in a member whose discriminator is 0
+				zero := func(c *Schema) *Def {
+					c.Defs[di].Branches[0].Index = 0
+					return c.Defs[di].Branches[0].Def
+				}
+				if len(d.Branches[0].Def.Fields) >= 2 {
+					add("duplicate field name", "union-member-with-discriminator-0", func(c *Schema) bool {
+						fs := zero(c).Fields
+						fs[len(fs)-1].Name = fs[0].Name
+						return true
+					})
+				}
+				if d.Branches[0].Def.Kind == "message" && len(d.Branches[0].Def.Fields) >= 2 {
+					add("duplicate index", "union-member-with-discriminator-0", func(c *Schema) bool {
+						fs := zero(c).Fields
+						fs[len(fs)-1].Index = fs[0].Index
+						return true
+					})
+				}
+				add("definition named like a primitive", "union-member-with-discriminator-0", func(c *Schema) bool {
+					b := zero(c)
+					old := b.Name
+					b.Name = "int32"
+					renameRefs(c, old, "int32")
+					return true
+				})
+				add("duplicate definition name", "union-member-with-discriminator-0+union", func(c *Schema) bool {
+					zero(c).Name = c.Defs[di].Name
+					return true
+				})
+				if d.Branches[0].Def.Kind == "struct" {
+					add("struct contains itself", "union-member-with-discriminator-0", func(c *Schema) bool {
+						b := zero(c)
+						b.Fields = append(b.Fields, Field{Name: "selfref9", Type: Simple(b.Name)})
+						return true
+					})
+				}
+			}
+		}
 		if d.Kind == "union" {
 			if len(d.Branches) >= 2 {
 				add("duplicate index", "union", func(c *Schema) bool {
@@ -369,6 +416,27 @@ func RecursionFamily() []struct {
 	}
 	out = append(out, item{"cycle-inside-union-branch", &Schema{Defs: []*Def{
 		{Kind: "union", Name: "Uni1", Branches: []Branch{{Index: 1, Def: st("BrA", f("self", Simple("BrA")))}}}}}, true})
+	// cycles among the inline struct members of a union, with 0, 1 or 3 top-level structs
+	// next to them (the members are not top-level structs)
+	for n := 2; n <= 5; n++ {
+		var brs []Branch
+		for i := 0; i < n; i++ {
+			brs = append(brs, Branch{Index: i + 1, Def: st(fmt.Sprintf("Mem%d", i), f("alpha", Simple("int32")), f("next", Simple(fmt.Sprintf("Mem%d", (i+1)%n))))})
+		}
+		u := &Def{Kind: "union", Name: "Uni1", Branches: brs}
+		out = append(out, item{fmt.Sprintf("member-cycle-%d-no-top-level-struct", n), &Schema{Defs: []*Def{u}}, true})
+		out = append(out, item{fmt.Sprintf("member-cycle-%d-one-top-level-struct", n), &Schema{Defs: []*Def{st("Plain", f("x", Simple("int32"))), u}}, true})
+		out = append(out, item{fmt.Sprintf("member-cycle-%d-three-top-level-structs", n), &Schema{Defs: []*Def{u, st("Pa", f("x", Simple("int32"))), st("Pb", f("a", Simple("Pa"))), st("Pc", f("b", Simple("Pb")))}}, true})
+	}
+	// a cycle that alternates between a top-level struct and a union member
+	out = append(out, item{"cycle-top-level-and-member", &Schema{Defs: []*Def{
+		st("Top", f("m", Simple("Mem0"))),
+		{Kind: "union", Name: "Uni1", Branches: []Branch{{Index: 1, Def: st("Mem0", f("t", Simple("Top")))}}}}}, true})
+	// discriminator 0 is legal; whatever is wrong inside that member must still be found
+	out = append(out, item{"union-discriminator-0-accepted", &Schema{Defs: []*Def{
+		{Kind: "union", Name: "Uni1", Branches: []Branch{{Index: 0, Def: st("Zero", f("a", Simple("int32")))}, {Index: 1, Def: st("One", f("b", Simple("int32")))}}}}}, false})
+	out = append(out, item{"cycle-inside-member-with-discriminator-0", &Schema{Defs: []*Def{
+		{Kind: "union", Name: "Uni1", Branches: []Branch{{Index: 0, Def: st("BrA", f("self", Simple("BrA")))}, {Index: 1, Def: st("One", f("b", Simple("int32")))}}}}}, true})
 	// positive cases
 	out = append(out, item{"through-message", &Schema{Defs: []*Def{{Kind: "message", Name: "Node", Fields: []Field{mf(1, "next", Simple("Node"))}}}}, false})
 	out = append(out, item{"struct-message-struct", &Schema{Defs: []*Def{
